@@ -128,9 +128,9 @@ func runCtxSweep(runner, outcome string, watches bool, timeout time.Duration, of
 		ev.Order = "either"
 	case ev.OffsetUs < -marginUs:
 		ev.Order = "finish-first"
-	case ev.OffsetUs > marginUs:
-		ev.Order = "timer-first"
 	default:
+		// an action that ended after the deadline says nothing about when the runner's own timer was served (a single stalled
+		// thread has been seen to delay it by tens of milliseconds): only "the action ended well before the deadline" is claimed
 		ev.Order = "either"
 	}
 	return ev
